@@ -227,7 +227,9 @@ class All(Part):
 
     def generate(self, rng, tier):
         thorough = tier == "thorough"
-        downs = [dict(kind="down", ntargets=2, senders=[True, False, False], m=5, n=30)]
+        downs = [dict(kind="down", ntargets=2, senders=[True, False, False], m=5, n=30),
+                 # the same over TLS: a failed tls.Dial must be reported like a failed net.Dial (fix 8cbc6db)
+                 dict(kind="down", ntargets=1, senders=[True, False], m=4, n=12, tls=True)]
         if thorough:
             downs += [dict(kind="down", ntargets=1, senders=[False], m=1, n=1),
                       dict(kind="down", ntargets=3, senders=[True, True], m=40, n=200),
@@ -241,7 +243,9 @@ class All(Part):
         # the peer is restarted on its address while senders keep sending bursts
         reconnects = [dict(kind="reconnect", senders=[False, False], bursts=36, per=3000, gap_us=40000, restarts=1)]
         probes = [dict(kind="stop", calls=["start", "stop"], engine_probe=True),
-                  dict(kind="stop", calls=["start"], engine_probe=True)]
+                  dict(kind="stop", calls=["start"], engine_probe=True),
+                  # several goroutines stop one running remote at the same moment: nobody blocks (fix 6a3e638)
+                  dict(kind="stop", calls=["start", "stop"], engine_probe=False, racers=4, race_rounds=200 if thorough else 60)]
         churns = []
         if thorough:
             bursts += [dict(kind="up", peers=1, targets=[[1, 0]], senders=[True, False, True, False], per=4900, requests=0, rounds=2),
@@ -257,7 +261,9 @@ class All(Part):
         ups = [dict(kind="up", peers=1, targets=[[1, 0], [1, 1], [1, 2]], senders=[True, False, True, False], per=600 if thorough else 300, requests=8),
                dict(kind="up", peers=2, targets=[[1, 0], [2, 0], [1, 1]], senders=[True, True, False], per=400 if thorough else 200, requests=4),
                dict(kind="up", peers=1, targets=[[1, 0]], senders=[True, True, True, True], per=1000 if thorough else 320, requests=0),
-               dict(kind="up", peers=1, targets=[[1, 0]], senders=[False], per=200, requests=1)]
+               dict(kind="up", peers=1, targets=[[1, 0]], senders=[False], per=200, requests=1),
+               # two senders of the same id, one of them behind a foreign address, interleaved in the same batches
+               dict(kind="up", peers=1, targets=[[1, 0]], senders=[False, True, False, True], per=400, requests=0, twins=True)]
         for _ in range(24 if thorough else 2):
             peers = rng.randint(1, 2)
             nt = rng.randint(1, 4)
